@@ -1,7 +1,10 @@
 #!/bin/bash
-# confirm_seed.sh <cNN> <label>: confirm a sub-agent's seeded change in its scratch worktree and store it under /verif/seeded/
+# confirm_seed.sh <cNN[b]> <label> [PROP] [neg]: confirm a sub-agent's seeded change in its scratch worktree and store it under /verif/seeded/
+# PROP overrides the property derived from the worktree name; "neg" = property-preserving change (demo must pass with and without it)
 export GOFLAGS=-mod=mod GOPROXY=off GOSUMDB=off GOTOOLCHAIN=local
 p=$1; label=$2; P=$(echo ${p:0:3} | tr a-z A-Z); wt=/tmp/wt-$p; sd=/tmp/seed-$p
+neg=""; for a in "$3" "$4"; do case "$a" in neg) neg=1;; C[0-9][0-9]) P=$a;; esac; done
+lp=$(echo $P | tr A-Z a-z); [ "${p:3}" = b ] && [ "$lp" = "${p:0:3}" ] && lp=$p
 cd $wt || exit 2
 echo "=== $p changed files: $(git status --short | tr '\n' ' ')"
 git diff > /tmp/seed-$p/patch.confirm.diff
@@ -12,13 +15,19 @@ bash $sd/demo/run.sh $wt > $sd/with.log 2>&1; w=$?
 git checkout -q -- .; bash $sd/demo/run.sh $wt > $sd/without.log 2>&1; wo=$?; git checkout -q -- .; git apply /tmp/seed-$p/patch.confirm.diff
 git status --short | grep -v "^ M" | head
 echo "tests ok=$nok fail=$nfail; demo with change exit=$w; without exit=$wo"
-if [ "$nfail" != 0 ] || [ $w = 0 ] || [ $wo != 0 ]; then echo "NOT CONFIRMED"; exit 1; fi
-d=/verif/seeded/$label-$p; mkdir -p $d; cp $sd/patch.confirm.diff $d/patch.diff; rm -rf $d/demo; cp -r $sd/demo $d/demo; rm -rf $d/demo/gen
+if [ -n "$neg" ]; then
+  if [ "$nfail" != 0 ] || [ $w != 0 ] || [ $wo != 0 ]; then echo "NOT CONFIRMED"; exit 1; fi
+  label=$label-neg
+else
+  if [ "$nfail" != 0 ] || [ $w = 0 ] || [ $wo != 0 ]; then echo "NOT CONFIRMED"; exit 1; fi
+fi
+d=/verif/seeded/$label-$lp; mkdir -p $d; cp $sd/patch.confirm.diff $d/patch.diff; rm -rf $d/demo; cp -r $sd/demo $d/demo; rm -rf $d/demo/gen
 python3 - <<PY
 import json
 m=json.load(open('$sd/meta.json'))
-out={"property":"$P","what":m.get("what"),"needs":m.get("needs"),"source":"sub-agent ($label), given only the property text and a scratch worktree","agent_ran":m.get("ran"),
- "confirmed":"in scratch worktree $wt (HEAD $(git -C $wt rev-parse --short HEAD)): go build ./... ok; go test -vet=off -count=1 ./... $nok packages ok, 0 failing, with the change; demo/run.sh exit $w with the change, exit $wo after git stash"}
+out={"property":"$P","what":m.get("what"),"needs":m.get("needs"),
+ **({"expect":"holds","why_it_still_holds":m.get("why_it_still_holds")} if "$neg" else {}),"source":"sub-agent ($label), given only the property text and a scratch worktree","agent_ran":m.get("ran"),
+ "confirmed":"in scratch worktree $wt (HEAD $(git -C $wt rev-parse --short HEAD)): go build ./... ok; go test -vet=off -count=1 ./... $nok packages ok, 0 failing, with the change; demo/run.sh exit $w with the change, exit $wo after git checkout -- ."}
 json.dump(out,open('$d/meta.json','w'),indent=1)
 PY
 echo "CONFIRMED -> $d"
